@@ -222,7 +222,14 @@ func FromGo(t *ref.Type, rv reflect.Value) (interface{}, error) {
 	case ref.KString:
 		return rv.String(), nil
 	case ref.KValue:
-		if rv.IsNil() {
+		// the library's own Go type for m is *interface{}: look through
+		for (rv.Kind() == reflect.Ptr || rv.Kind() == reflect.Interface) && !rv.IsNil() {
+			if _, ok := rv.Interface().(value.Value); ok {
+				break
+			}
+			rv = rv.Elem()
+		}
+		if (rv.Kind() == reflect.Ptr || rv.Kind() == reflect.Interface) && rv.IsNil() {
 			return nil, fmt.Errorf("nil value.Value")
 		}
 		vv, ok := rv.Interface().(value.Value)
@@ -281,4 +288,65 @@ func ReadSig(b []byte) (string, []byte, error) {
 		return "", nil, err
 	}
 	return s, b[len(b)-r.Len():], nil
+}
+
+// Fill stores the abstract value v of type t into dst, a settable Go value of
+// ANY type with the matching shape (struct members are taken by position):
+// it is how a value is put into a Go type which the library, not the harness,
+// derived from the signature. A shape mismatch is an error.
+func Fill(dst reflect.Value, t *ref.Type, v interface{}) (err error) {
+	defer func() {
+		if r := recover(); r != nil {
+			err = fmt.Errorf("cannot store a %s into a %v: %v", t.Sig(), dst.Type(), r)
+		}
+	}()
+	switch t.Kind {
+	case ref.KValue:
+		dst.Set(reflect.ValueOf(ToValue(v.(ref.Dyn))))
+	case ref.KList:
+		if dst.Kind() != reflect.Slice {
+			return fmt.Errorf("%s is represented by %v, not a slice", t.Sig(), dst.Type())
+		}
+		l := v.(ref.List)
+		s := reflect.MakeSlice(dst.Type(), len(l), len(l))
+		for i, e := range l {
+			if err := Fill(s.Index(i), t.Elem, e); err != nil {
+				return err
+			}
+		}
+		dst.Set(s)
+	case ref.KMap:
+		if dst.Kind() != reflect.Map {
+			return fmt.Errorf("%s is represented by %v, not a map", t.Sig(), dst.Type())
+		}
+		m := reflect.MakeMap(dst.Type())
+		for _, kv := range v.(ref.Map) {
+			k := reflect.New(dst.Type().Key()).Elem()
+			e := reflect.New(dst.Type().Elem()).Elem()
+			if err := Fill(k, t.Key, kv.K); err != nil {
+				return err
+			}
+			if err := Fill(e, t.Elem, kv.V); err != nil {
+				return err
+			}
+			m.SetMapIndex(k, e)
+		}
+		dst.Set(m)
+	case ref.KTuple, ref.KStruct:
+		if dst.Kind() != reflect.Struct || dst.NumField() != len(t.Members) {
+			return fmt.Errorf("%s is represented by %v, not a struct of %d fields", t.Sig(), dst.Type(), len(t.Members))
+		}
+		for i, m := range t.Members {
+			if err := Fill(dst.Field(i), m, v.(ref.Tuple)[i]); err != nil {
+				return err
+			}
+		}
+	default:
+		rv := reflect.ValueOf(v)
+		if rv.Kind() != dst.Kind() {
+			return fmt.Errorf("%s is represented by %v", t.Sig(), dst.Type())
+		}
+		dst.Set(rv.Convert(dst.Type()))
+	}
+	return nil
 }
